@@ -3,7 +3,7 @@
 // no compiled-code counterpart from a verifier.  This test runs the REAL builder natively:
 // every single-slot and every 18-of-19 subset, all pairs, 1500 pseudo-random subsets, three
 // call orders, repeated setter calls (last wins), 0..=3 modules / SMBIOS / custom tags with
-// duplicate custom ids and non-monotonic module addresses -- and compares the tag walk of
+// custom ids in DESCENDING order with a duplicate (0x2000, 0x1000, 0x1000: seed w9-C06-m2 kept the vector sorted by id) and non-monotonic module addresses -- and compares the tag walk of
 // the loaded result with the supplied tags byte by byte (up to each tag's size).
 use super::*;
 use crate::{BootInformation, FramebufferType, MemoryArea, MemoryAreaType, VBEControlInfo, VBEModeInfo};
@@ -84,11 +84,11 @@ fn run_case(mask: u32, order: u32, reps: u32, nmod: usize, nsmb: usize, ncust: u
         if im < nmod { let start = 0x9000 - 0x1000 * im as u32; let t = ModuleTag::new(start, start + 0x800, if im % 2 == 0 { "m" } else { "module two" }); mods.push(img(&*t)); b = b.add_module(t); im += 1; }
         // SMBIOS tags in an order that is NOT sorted by (size, major, minor, tables), with one byte-identical duplicate
         if is < nsmb { let t = SmbiosTag::new(9 - (is % 2) as u8 * 9, 1, &[1, 2, 3, 4, 5][..(3 - is % 2 * 2)]); smbs.push(img(&*t)); b = b.add_smbios(t); is += 1; }
-        if ic < ncust { let t = multiboot2_common::new_boxed::<DynSizedStructure<TagHeader>>(TagHeader::new(TagType::Custom(0x1337), 0), &[&[ic as u8; 5][..(ic + 1)]]); custs.push(img(&*t)); b = b.add_custom_tag(t); ic += 1; }
+        if ic < ncust { let t = multiboot2_common::new_boxed::<DynSizedStructure<TagHeader>>(TagHeader::new(TagType::Custom([0x2000u32, 0x1000, 0x1000][ic % 3]), 0), &[&[ic as u8; 5][..(ic + 1)]]); custs.push(img(&*t)); b = b.add_custom_tag(t); ic += 1; }
     }
     while im < nmod { let start = 0x9000 - 0x1000 * im as u32; let t = ModuleTag::new(start, start + 0x800, "late"); mods.push(img(&*t)); b = b.add_module(t); im += 1; }
     while is < nsmb { let t = SmbiosTag::new(9 - (is % 2) as u8 * 9, 1, &[1, 2, 3, 4, 5][..(3 - is % 2 * 2)]); smbs.push(img(&*t)); b = b.add_smbios(t); is += 1; }
-    while ic < ncust { let t = multiboot2_common::new_boxed::<DynSizedStructure<TagHeader>>(TagHeader::new(TagType::Custom(0x1337), 0), &[&[0xC0u8; 3][..]]); custs.push(img(&*t)); b = b.add_custom_tag(t); ic += 1; }
+    while ic < ncust { let t = multiboot2_common::new_boxed::<DynSizedStructure<TagHeader>>(TagHeader::new(TagType::Custom([0x2000u32, 0x1000, 0x1000][ic % 3]), 0), &[&[0xC0u8; 3][..]]); custs.push(img(&*t)); b = b.add_custom_tag(t); ic += 1; }
 
     // expected walk: documented order
     let mut expected: Vec<(usize, Vec<u8>)> = single.clone();
